@@ -759,14 +759,14 @@ impl CodegenContext {
                     if emit_if {
                         self.emit_tokens(&if_.inner)?;
                     } else if self.options.enable_greedy_analysis {
-                        self.with_dummy_segment(|s| s.emit_tokens(&if_.inner))?;
+                        self.analyse_untaken_block(if_)?;
                     }
 
                     if let Some(e) = else_ {
                         if !emit_if {
                             self.emit_tokens(&e.inner)?;
                         } else if self.options.enable_greedy_analysis {
-                            self.with_dummy_segment(|s| s.emit_tokens(&e.inner))?;
+                            self.analyse_untaken_block(e)?;
                         }
                     }
                 }
@@ -1351,6 +1351,14 @@ impl CodegenContext {
         self.segments.remove(&Identifier::new("$dummy"));
         self.current_segment = prev_segment;
         result
+    }
+
+    /// Goes through a block that is not part of the program (the branch of an `.if` that is not taken), so that what
+    /// is used in there is known to the analysis. Nothing is emitted, and what the block defines stays in a scope of its
+    /// own: the rest of the program must not see it, just as it does not when the program is assembled.
+    fn analyse_untaken_block(&mut self, block: &Block) -> CoreResult<()> {
+        let scope = Identifier::new(format!("$untaken_{}", block.lparen.span.low().as_usize()));
+        self.with_dummy_segment(|s| s.with_scope(&scope, None, |s| s.emit_tokens(&block.inner)))
     }
 
     fn with_scope<F: FnOnce(&mut Self) -> CoreResult<()>>(
